@@ -53,6 +53,12 @@ fn main() {
         std::process::exit(2);
     }
     let prop = args[1].clone();
+    if prop == "GEN-CHARWIDTH" {
+        // regenerate /verif/lean/AgModel/CharWidth.lean from the `unicode-width` crate:
+        //   target/debug/agverif GEN-CHARWIDTH > /verif/lean/AgModel/CharWidth.lean
+        print!("{}", props::c19::char_width_lean());
+        return;
+    }
     let tier = arg(&args, "--tier").unwrap_or_else(|| "quick".into());
     let seed: u64 = arg(&args, "--seed").and_then(|s| s.parse().ok()).unwrap_or(20260930);
     let drv_path = arg(&args, "--driver").unwrap_or_else(|| "/verif/lean/.lake/build/bin/agdriver".into());
